@@ -3,7 +3,7 @@
 # checks listed below) and writes seeded/STATUS.jsonl and seeded/STATUS.md
 cd /verif
 par=${1:-2}
-declare -A CROSS=( [C03-3]="C03 C04" [C04-4]="C04 C03" [C05-4]="C05 C03" [C09-4]="C09 C18" [C20-1]="C20 C14" [C06-3]="C06 C03" [C20-3]="C20 C03" [C02-2]="C02 C03" [C08-3]="C08 C06 C11" [C11-4]="C11 C06" [C12-4]="C12 C06")
+declare -A CROSS=( [C03-3]="C03 C04" [C04-4]="C04 C03" [C05-4]="C05 C03" [C09-4]="C09 C18" [C20-1]="C20 C14" [C06-3]="C06 C03" [C20-3]="C20 C03" [C08-3]="C08 C06" [C11-4]="C11 C06" [C12-4]="C12 C06" [C02-5]="C02 C13" [C02-6]="C02 C04" [C09-5]="C09 C18" [C03-6]="C03 C05" [C01-6]="C01 C05" [C04-5]="C04 C05" [C04-6]="C04 C03" [C08-6]="C08 C18" [C07-5]="C07 C14" [C13-5]="C13 C05" [C06-5]="C06 C03" [C18-5]="C18 C12" )
 : > /tmp/matrix_jobs.txt
 for d in seeded/C*/; do m=$(basename $d); echo "$m ${CROSS[$m]:-${m%-*}}" >> /tmp/matrix_jobs.txt; done
 cat /tmp/matrix_jobs.txt | xargs -P $par -L 1 tools/revalidate_seeded.sh > seeded/STATUS.jsonl.new 2>/tmp/matrix.err
